@@ -706,9 +706,12 @@ myth_thread_t myth_wsapi_runqueue_take(int victim,
   q = &g_envs[victim].runnable_q;
   wc = &q->wc;
 #if QUICK_CHECK_ON_STEAL
+  MYTH_VERIF_POINT(MYTH_VP_WSQ_WQ0, q, 0, q->top);
   if (q->top-q->base<=0){
+    MYTH_VERIF_POINT(MYTH_VP_WSQ_WQ1, q, 0, 0);
     return NULL;
   }
+  MYTH_VERIF_POINT(MYTH_VP_WSQ_WQ1, q, 0, 1);
 #endif
 #if USE_LOCK || USE_LOCK_TAKE
   myth_spin_lock_body(&q->m_lock);
@@ -724,11 +727,15 @@ myth_thread_t myth_wsapi_runqueue_take(int victim,
   //Increment base
   b=q->base;
   q->base=b+1;
+  MYTH_VERIF_POINT(MYTH_VP_WSQ_WK1, q, 0, b);
   myth_wsqueue_rwbarrier();
   top=q->top;
+  MYTH_VERIF_POINT(MYTH_VP_WSQ_WK2, q, 0, top);
   if (b<top){
     ret=q->ptr[b];
+    MYTH_VERIF_POINT(MYTH_VP_WSQ_WK3, q, ret, b);
     if ((!decidefn) || decidefn(ret,udata)){
+      MYTH_VERIF_POINT(MYTH_VP_WSQ_WKD, q, ret, 1);
       //q->ptr[b]=NULL;
       //invalidate cache
       //fprintf(stderr,"%d cache Invalidate\n",victim);
@@ -742,15 +749,18 @@ myth_thread_t myth_wsapi_runqueue_take(int victim,
       //Increment sequence
       myth_wsqueue_wbarrier();
       wc->seq=s+2;
+      MYTH_VERIF_POINT(MYTH_VP_WSQ_WK4, q, 0, 0);
       myth_wsqueue_lock_unlock(&q->lock);
 #if USE_LOCK || USE_LOCK_TAKE
       myth_spin_unlock_body(&q->m_lock);
 #endif
       return ret;
     }
+    MYTH_VERIF_POINT(MYTH_VP_WSQ_WKD, q, ret, 0);
     myth_wsqueue_wbarrier();
   }
   q->base=b;
+  MYTH_VERIF_POINT(MYTH_VP_WSQ_WK5, q, 0, b);
   myth_wsqueue_lock_unlock(&q->lock);
 #if USE_LOCK || USE_LOCK_TAKE
   myth_spin_unlock_body(&q->m_lock);
@@ -766,13 +776,17 @@ myth_thread_t myth_wsapi_runqueue_peek(int victim,void *ptr,size_t *psize) {
   wc=&q->wc;
  start:;
   //runqueue empty?
+  MYTH_VERIF_POINT(MYTH_VP_WSQ_VQ0, q, 0, q->top);
   if (q->top-q->base<=0){
     //empty,return NULL
+    MYTH_VERIF_POINT(MYTH_VP_WSQ_VQ1, q, 0, 0);
     return NULL;
   }
+  MYTH_VERIF_POINT(MYTH_VP_WSQ_VQ1, q, 0, 1);
   //Check cache status
   if (!wc->ptr){
     int b,top;
+    MYTH_VERIF_POINT(MYTH_VP_WSQ_VC0, q, 0, 0);
     //Update cache
     //Acquire lock
 #if 1
@@ -782,16 +796,20 @@ myth_thread_t myth_wsapi_runqueue_peek(int victim,void *ptr,size_t *psize) {
 #endif
     //check status again
     if (!wc->ptr){
+      MYTH_VERIF_POINT(MYTH_VP_WSQ_VC1, q, 0, 0);
       //Increment base
       b=q->base;
       q->base=b+1;
+      MYTH_VERIF_POINT(MYTH_VP_WSQ_VK1, q, 0, b);
       myth_wsqueue_rwbarrier();
       top=q->top;
+      MYTH_VERIF_POINT(MYTH_VP_WSQ_VK2, q, 0, top);
       if (b<top){
 	//fprintf(stderr,"%d cache update\n",victim);
 	int s;
 	myth_thread_t th;
 	th=q->ptr[b];
+	MYTH_VERIF_POINT(MYTH_VP_WSQ_VK3, q, th, b);
 	size_t thcs=myth_wsapi_get_hint_size(th);
 	void* thcd=myth_wsapi_get_hint_ptr(th);
 	//Copy data
@@ -806,14 +824,26 @@ myth_thread_t myth_wsapi_runqueue_peek(int victim,void *ptr,size_t *psize) {
 	//Increment sequence
 	myth_wsqueue_wbarrier();
 	wc->seq=s+2;
+	MYTH_VERIF_POINT(MYTH_VP_WSQ_VK4, q, th, 0);
 	myth_wsqueue_wbarrier();
       }
       //Restore b
       q->base=b;
+      MYTH_VERIF_POINT(MYTH_VP_WSQ_VK5, q, 0, b);
     }
+#ifdef MYTH_VERIF
+    else {
+      MYTH_VERIF_POINT(MYTH_VP_WSQ_VC1, q, 0, 1);
+    }
+#endif
     //Release lock
     myth_wsqueue_lock_unlock(&q->lock);
   }
+#ifdef MYTH_VERIF
+  else {
+    MYTH_VERIF_POINT(MYTH_VP_WSQ_VC0, q, 0, 1);
+  }
+#endif
   //read sequence
   //fprintf(stderr,"%d cache read\n",victim);
   int s0,s1;
@@ -833,7 +863,9 @@ myth_thread_t myth_wsapi_runqueue_peek(int victim,void *ptr,size_t *psize) {
     if (psize)*psize=cs;
     myth_wsqueue_rbarrier();
     s1=wc->seq;
+    MYTH_VERIF_SPIN(MYTH_VP_WSQ_VSPIN, q);
   }while ((s0 & 1)||(s1^s0));
+  MYTH_VERIF_POINT(MYTH_VP_WSQ_VR, q, ret, 0);
   return ret;
 }
 
